@@ -73,3 +73,31 @@ package lex
 //@   ensures forall x in 0..1114112 :: csMem(result, x) ==> old(csMem(r, x)) || (lo <= x && x <= hi)
 //@   ensures forall x in 0..1114112 :: old(csMem(r, x)) ==> csMem(result, x)
 //@   ensures forall x in 0..1114112 :: (lo <= x && x <= hi) ==> csMem(result, x)
+
+// ---- the table interpreter (C09) ----
+
+// isState(t, s): s names a row of the NumSymbols-wide transition matrix.
+//@ pred isState(t *Tables, s int) = 0 <= s && (s + 1) * t.NumSymbols <= len(t.Dfa)
+// wfTables: the shape lex.Compile promises (checked on its results by the bounded C09 harness).
+//@ pred wfTables(t *Tables) = t.NumSymbols >= 1 && len(t.SymbolMap) >= 1 && (forall k in 0..len(t.SymbolMap) :: 0 <= t.SymbolMap[k].Target && t.SymbolMap[k].Target < t.NumSymbols) && (forall k in 0..len(t.Dfa) :: t.Dfa[k] >= 0 ==> isState(t, t.Dfa[k])) && (forall k in 0..len(t.Backtrack) :: t.Backtrack[k].Action >= 0 && isState(t, t.Backtrack[k].NextState)) && (forall k in 0..len(t.StateMap) :: isState(t, t.StateMap[k]))
+// eoiAccepts: the end-of-input column holds accept actions only (no transition, no checkpoint).
+//@ pred eoiAccepts(t *Tables) = forall s in 0..len(t.Dfa) :: isState(t, s) ==> t.Dfa[s * t.NumSymbols] <= -1 - len(t.Backtrack)
+// an action Scan may report: decoded from an accepting table entry, or the action of a checkpoint
+//@ pred tableAction(t *Tables, a int) = (exists k in 0..len(t.Dfa) :: t.Dfa[k] <= -1 - len(t.Backtrack) && a == -1 - len(t.Backtrack) - t.Dfa[k]) || (exists k in 0..len(t.Backtrack) :: a == t.Backtrack[k].Action)
+
+//@ func Tables.Scan
+//@   requires wfTables(t) && 0 <= start && start < len(t.StateMap)
+//@   ensures 0 <= size && size <= len(text) && action >= 0
+//@   ensures tableAction(t, action) || action == 0
+//@   loop 1:
+//@     invariant 0 <= index && index <= len(text) && isState(t, state) && actionStart == -1 - len(t.Backtrack)
+//@     invariant 0 <= size && size <= index && action >= 0
+//@     invariant size > 0 ==> tableAction(t, action)
+//@   loop 2:
+//@     invariant actionStart == -1 - len(t.Backtrack) && (state >= 0 ==> isState(t, state)) && (state <= actionStart || state >= 0)
+//@     invariant 0 <= size && size <= len(text) && action >= 0 && (size > 0 ==> tableAction(t, action))
+//@     invariant state < 0 ==> exists k in 0..len(t.Dfa) :: t.Dfa[k] == state
+//@     decreases n
+
+//@ func Tables.ActionStart
+//@   ensures result == -1 - len(t.Backtrack)
